@@ -22,8 +22,10 @@ package peer
 //@   requires [request]  typeis_[protocol.Request](m) ==> int(as_[protocol.Request](m).Index) < NP(peer) && as_[protocol.Request](m).Begin%16384 == 0 && as_[protocol.Request](m).Length > 0 && as_[protocol.Request](m).Length <= 16384 &&
 //@            int64(as_[protocol.Request](m).Index)*int64(peer.Pieces.PieceSize()) + int64(as_[protocol.Request](m).Begin) + int64(as_[protocol.Request](m).Length) <= peer.Pieces.Length()
 //@   requires [have]     typeis_[protocol.Have](m) ==> int(as_[protocol.Have](m).Index) < NP(peer)
+//@   requires [ext0]     typeis_[protocol.Extended0](m) && peer.proxy != "" ==> as_[protocol.Extended0](m).Version == "" && as_[protocol.Extended0](m).Port == 0
+//@   requires [port]     typeis_[protocol.Port](m) ==> peer.proxy == ""
 //@   modifies peer.writeTime
-//@   props    C11
+//@   props    C11 C18
 
 // PG: the piece store the peer looks at has a consistent geometry.
 //@ spec PG(peer *Peer) bool
@@ -37,7 +39,7 @@ package peer
 //@   requires peer != nil && PG(peer) && len(bitmap) == (NP(peer)+7)/8
 //@   modifies *
 //@   focus    pre:peer.write
-//@   props    C11
+//@   props    C11 C18
 
 // Block numbering: block c of the torrent is block c%cpp of piece c/cpp
 // (cpp = blocks per piece); its length is 16 KiB except for the last block of
@@ -139,3 +141,12 @@ package peer
 //@     invariant [below] QBelow(peer)
 //@     invariant [depth] NSent(peer) <= max(old(NSent(peer)), max(2, peer.reqQ))
 //@   props    C11
+
+// handleMessage: PARTIAL check (C18) -- the DHT is only pinged for a torrent
+// without a proxy (the DHT socket bypasses the proxy).
+//@ func handleMessage
+//@   requires peer != nil
+//@   modifies *
+//@   assertcall [noping] Ping :: peer.proxy == ""
+//@   focus    assert:noping
+//@   props    C18
